@@ -419,14 +419,20 @@ def conveyor(props=("C12", "C13"), kind="cconv", acc=1, cap=3, n_items=3, consum
                     if Rk is None:
                         continue
                     stopped = 0
+                    entered_during_a_stall = False
                     for (a, b, h) in stalls:
                         lo = a if ctx.le(E[k], a) else E[k]
                         hi = b if ctx.le(b, Rk) else Rk
                         if ctx.lt(lo, hi):
                             stopped = stopped + (hi - lo)
+                            if ctx.lt(a, E[k]):
+                                entered_during_a_stall = True
                     ctx.hit("C13:ready-time-checked")
                     if ctx.lt(Rk, E[k] + travel + stopped - tol):
-                        F.soft(f"C13:item-advanced-while-the-belt-was-stopped@{tag}", {"k": k})
+                        # an item that was already on the belt (or entered in the very instant the head arrived) when every stall it met began is a
+                        # different situation from an item admitted in the middle of a stall
+                        what = "item-advanced-while-the-belt-was-stopped" if entered_during_a_stall else "item-already-on-the-belt-kept-moving-while-the-belt-was-stopped"
+                        F.soft(f"C13:{what}@{tag}", {"k": k})
                     if ctx.lt(E[k] + travel + stopped + tol, Rk):
                         F.soft(f"C13:item-did-not-resume-from-where-it-stopped@{tag}", {"k": k})
             else:
